@@ -373,6 +373,9 @@ def check(col: Collector, tier: str):
                 f"a dataset object is used for many queries: what one query declares (docker image metadata, the query itself) must stay in locals, "
                 f"never on the dataset ({bad})", k.module.rel)
     from sa.props._tr import import_obligations
+    import_obligations(col, "C07.R8", "c06", lambda o: o.detail == "finder-built-from-a-copy-of-the-method-table",
+                       "what a query's metadata registers must go into a table of its own: a view of the executor's table (an alias, ChainMap(table)) "
+                       "writes into it, and reset() never clears it")
     import_obligations(col, "C07.R8", "c06", lambda o: o.detail == "coder-keeps-no-state",
                        "the collection coders live as long as their executor: a table they keep is a history carrier that reset() does not know")
     # ---------------- R6 fresh visitor / generated code per translation
